@@ -166,7 +166,9 @@ class Ctx:
             rc, out = self.tlc(module, cfg, env=e, workers=1, timeout=timeout, deque=deque, heap=heap,
                                tag="trace:" + os.path.basename(tr))
             rejects = parse_rejects(out)
-            walked = re.search(r'<<"WALKED", (\d+)>>', out)
+            if len(rejects) != len(re.findall(r'"REJECT"', out)):
+                raise Inconclusive("could not parse every REJECT line of %s on %s" % (module, tr))
+            walked = re.search(r'<<\s*"WALKED",\s*(\d+)\s*>>', out)
             if rc != 0 and not rejects and not walked:
                 raise Inconclusive("trace validation %s on %s failed rc=%d:\n%s" % (module, tr, rc, tail(out, 50)))
             if not walked:
@@ -255,27 +257,95 @@ def parse_tlc_stats(out):
     return (int(g), int(d))
 
 
-_rej = re.compile(r'^<<"REJECT", (\d+), (\d+), "([^"]*)", (\{.*\})(?:, (.*))?>>\s*$')
+def _balanced_end(text, i):
+    """index just after the tuple that starts at text[i:i+2] == '<<' (brackets << >>, { }, [ ], strings respected)"""
+    depth = 0
+    n = len(text)
+    in_str = False
+    while i < n:
+        ch = text[i]
+        if in_str:
+            if ch == "\\":
+                i += 2
+                continue
+            if ch == '"':
+                in_str = False
+            i += 1
+            continue
+        if ch == '"':
+            in_str = True
+            i += 1
+            continue
+        two = text[i:i + 2]
+        if two == "<<":
+            depth += 1
+            i += 2
+            continue
+        if two == ">>":
+            depth -= 1
+            i += 2
+            if depth == 0:
+                return i
+            continue
+        i += 1
+    return -1
+
+
+_rej_head = re.compile(r'<<\s*"REJECT",\s*(\d+),\s*(-?\d+),\s*"([^"]*)",\s*')
+
+
+def reject_tuples(out):
+    """All <<"REJECT", ...>> tuples printed by the Trace_* modules, whether TLC printed them on one line or
+    pretty-printed them over several. Yields (line, seq, kind, rest_text) with rest_text = everything after the kind."""
+    pos = 0
+    while True:
+        m = re.search(r'<<\s*"REJECT"', out[pos:])
+        if not m:
+            return
+        start = pos + m.start()
+        end = _balanced_end(out, start)
+        if end < 0:
+            return
+        body = re.sub(r"\s+", " ", out[start:end])
+        h = _rej_head.match(body)
+        if h:
+            yield int(h.group(1)), int(h.group(2)), h.group(3), body[h.end():-2].strip()
+        pos = end
+
+
+def _split_top(rest):
+    """split 'A, B' at the first top-level comma after the first balanced { } set"""
+    depth = 0
+    i = 0
+    n = len(rest)
+    while i < n:
+        two = rest[i:i + 2]
+        ch = rest[i]
+        if two in ("<<",):
+            depth += 1
+            i += 2
+            continue
+        if two == ">>":
+            depth -= 1
+            i += 2
+            continue
+        if ch in "{[(":
+            depth += 1
+        elif ch in "}])":
+            depth -= 1
+        elif ch == "," and depth == 0:
+            return rest[:i].strip(), rest[i + 1:].strip()
+        i += 1
+    return rest.strip(), None
 
 
 def parse_rejects(out):
-    """REJECT lines printed by the Trace_* modules: (line, seq, kind, [clauses], extra)."""
-    # TLC pretty-prints long tuples over several lines: join continuation lines first
+    """REJECT tuples: (line, seq, kind, [clause names], extra text or None)."""
     res = []
-    buf = None
-    for ln in out.splitlines():
-        if ln.startswith('<<"REJECT"'):
-            buf = ln
-        elif buf is not None:
-            buf += " " + ln.strip()
-        else:
-            continue
-        if buf is not None and buf.rstrip().endswith(">>") and buf.count("<<") == buf.count(">>"):
-            m = _rej.match(re.sub(r"\s+", " ", buf.strip()))
-            if m:
-                clauses = re.findall(r'"([^"]+)"', m.group(4))
-                res.append((int(m.group(1)), int(m.group(2)), m.group(3), clauses, m.group(5)))
-            buf = None
+    for line, seq, kind, rest in reject_tuples(out):
+        clauses_txt, extra = _split_top(rest)
+        clauses = re.findall(r'"([^"]+)"', clauses_txt)
+        res.append((line, seq, kind, clauses, extra))
     return res
 
 
